@@ -2347,7 +2347,7 @@ def run(ctx):
         ctx.require(a.distinct.get("lenform_canon_octets", set()) >= {1, 2, 3, 4, 5},
                     "length forms: canonical lengths of 1..5 octets not all exercised")
         ctx.require({d for _, d, _ in a.distinct.get("reuse_depths", ())} == {5} and
-                    len({n for n, _, _ in a.distinct.get("reuse_depths", ())}) == 12, "reuse histories: depth 5 not used for all 12 classes")
+                    len({n for n, _, _ in a.distinct.get("reuse_depths", ())}) == len(_classes()), "reuse histories: depth 5 not used for all %d classes" % len(_classes()))
         ctx.require(a.n.get("der_short3", 0) == 16 * 65536 and a.n.get("der_short4", 0) == 16 * 65536 and a.n.get("der_short6", 0) == 8 ** 6, "short-string enumeration incomplete")
         ctx.require(a.n.get("der_pair_mutants", 0) == 65536 * npairs, "pair windows incomplete")
         ctx.require(a.n.get("pad_all3", 0) == 2 * 2 ** 24, "3-byte padding enumeration incomplete")
